@@ -288,20 +288,64 @@ func runGCSProbe(p gcsProbe) {
 		return
 	}
 	bud := budget{n: len(b) + qn}
+	// Every query function is called TWICE in a row on the same *Filter (review round 2: state kept on the object
+	// - a cache built on the second lookup and sized by the claimed N - shows on the second call only), and the
+	// filter is parsed afresh INSIDE the measured closure: g() re-runs a closure that went over budget and keeps
+	// the smaller figure, which would hide a one-time allocation cached on an object that survives the re-run.
+	fresh := func() *gcs.Filter {
+		var ff *gcs.Filter
+		if p.Form == "FromNBytes" {
+			ff, _ = gcs.FromNBytes(p.P, p.M, b)
+		} else {
+			ff, _ = gcs.FromBytes(p.N, p.P, p.M, b)
+		}
+		return ff
+	}
 	if len(qs) > 0 {
 		g("gcs.Match", p.Stream, ikey, bud, p.replay("Match"), func() bool {
+			ff := fresh()
 			for i, q := range qs {
 				if i >= 3 {
 					break
 				}
-				_, _ = f.Match(key, q)
+				_, _ = ff.Match(key, q)
+				_, _ = ff.Match(key, q)
 			}
+			_, _ = ff.Match(key, qs[0])
 			return true
 		})
 	}
-	g("gcs.MatchAny", p.Stream, ikey, bud, p.replay("MatchAny"), func() bool { _, _ = f.MatchAny(key, qs); return true })
-	g("gcs.ZipMatchAny", p.Stream, ikey, bud, p.replay("ZipMatchAny"), func() bool { _, _ = f.ZipMatchAny(key, qs); return true })
-	g("gcs.HashMatchAny", p.Stream, ikey, bud, p.replay("HashMatchAny"), func() bool { _, _ = f.HashMatchAny(key, qs); return true })
+	g("gcs.MatchAny", p.Stream, ikey, bud, p.replay("MatchAny"), func() bool {
+		ff := fresh()
+		_, _ = ff.MatchAny(key, qs)
+		_, _ = ff.MatchAny(key, qs)
+		return true
+	})
+	g("gcs.ZipMatchAny", p.Stream, ikey, bud, p.replay("ZipMatchAny"), func() bool {
+		ff := fresh()
+		_, _ = ff.ZipMatchAny(key, qs)
+		_, _ = ff.ZipMatchAny(key, qs)
+		return true
+	})
+	g("gcs.HashMatchAny", p.Stream, ikey, bud, p.replay("HashMatchAny"), func() bool {
+		ff := fresh()
+		_, _ = ff.HashMatchAny(key, qs)
+		_, _ = ff.HashMatchAny(key, qs)
+		return true
+	})
+	// and all four interleaved on the object that was parsed first (serialisers in between)
+	g("gcs.Match", p.Stream, ikey+"|mixed", bud, p.replay("Match/MatchAny/ZipMatchAny/HashMatchAny interleaved, twice"), func() bool {
+		for round := 0; round < 2; round++ {
+			if len(qs) > 0 {
+				_, _ = f.Match(key, qs[0])
+			}
+			_, _ = f.HashMatchAny(key, qs)
+			_, _ = f.NBytes()
+			_, _ = f.ZipMatchAny(key, qs)
+			_, _ = f.MatchAny(key, qs)
+		}
+		return true
+	})
 }
 
 // gcsChildMain is what the re-executed harness binary runs.
